@@ -507,12 +507,13 @@ func (s *c12Sink) count() int {
 // value *base) and returns what they were handed. A resting value measured too high (some unrelated goroutine
 // was still exiting) corrects itself: the count can never be below the true resting value.
 func (s *c12Sink) collect(base *int) string {
-	if !verifh.SettleGoroutines(*base, 5*time.Second) {
-		return "TIMEOUT-goroutines"
+	// deterministic join: every other goroutine of the process is blocked (goroutine dump), so every callback of
+	// the operation has run to its end (or is blocked for good: then the ceiling reports `stuck`)
+	if !c12Settled && !c12Quiesce() {
+		return "STUCK-goroutines"
 	}
-	if n := runtime.NumGoroutine(); n < *base {
-		*base = n
-	}
+	c12Settled = false
+	_ = base
 	s.mu.Lock()
 	out := s.fired
 	in := s.inner
@@ -589,17 +590,41 @@ func newC12Worker() *c12Worker {
 
 func (w *c12Worker) do(f func()) bool {
 	w.req <- f
-	t := time.NewTimer(3 * time.Second)
-	defer t.Stop()
-	select {
-	case p := <-w.res:
-		if p != nil {
-			panic(p)
+	// no wall clock: wait until every other goroutine is blocked; then the call has returned (its result is in the
+	// buffered channel) or it never will (everything is blocked: stuck). c12Quiesce's ceiling only detects livelock.
+	for {
+		if !c12Quiesce() {
+			return false
 		}
-		return true
-	case <-t.C:
-		return false
+		select {
+		case p := <-w.res:
+			if p != nil {
+				panic(p)
+			}
+			c12Settled = true
+			return true
+		default:
+			return false
+		}
 	}
+}
+
+// c12Settled: the last thing the harness did was a worker call that returned with every goroutine blocked (nothing has
+// run since): collect need not look again.
+var c12Settled bool
+
+// c12RunLoops counts the goroutines that are inside TimingWheel.run.
+func c12RunLoops() int {
+	n := 0
+	for _, g := range c12Goroutines() {
+		if i := strings.Index(g, "\ncreated by "); i >= 0 {
+			g = g[:i]
+		}
+		if strings.Contains(g, "collection.(*TimingWheel).run(") {
+			n++
+		}
+	}
+	return n
 }
 
 // c12Base is the number of goroutines at rest: the minimum over a few scheduler rounds, so that a goroutine
@@ -629,9 +654,10 @@ func TestVerifC12WB(t *testing.T) {
 			panic(err)
 		}
 		tw.Stop()
-		if !verifh.SettleGoroutines(before, 5*time.Second) {
+		if !c12Quiesce() || c12RunLoops() != 0 {
 			panic("run loop did not return after Stop")
 		}
+		_ = before
 		base := c12Base()
 		step := func(op []string) string {
 			switch op[0] {
@@ -663,7 +689,7 @@ func TestVerifC12WB(t *testing.T) {
 			}
 			return sink.collect(&base)
 		}
-		return step, func() { verifh.SettleGoroutines(base, time.Second) }
+		return step, func() { c12Quiesce() }
 	})
 }
 
@@ -734,12 +760,11 @@ func TestVerifC12(t *testing.T) {
 					return false, "undelivered" // the previous tick is still in the ticker's buffer
 				}
 				fakeT.Tick()
-				deadline := time.Now().Add(2 * time.Second)
-				for i := 0; len(fakeT.Chan()) > 0; i++ {
-					if i > 1000 && time.Now().After(deadline) {
-						return false, "undelivered"
-					}
-					runtime.Gosched()
+				if !c12Quiesce() {
+					return false, "STUCK-tick"
+				}
+				if len(fakeT.Chan()) > 0 {
+					return false, "undelivered" // everything is blocked and nobody took the tick
 				}
 				return true, ""
 			}
@@ -750,15 +775,13 @@ func TestVerifC12(t *testing.T) {
 				}
 				return true, ""
 			}
-			for i := 0; i < 200; i++ {
-				select {
-				case syncT.c <- time.Time{}:
-					return true, ""
-				default:
-					runtime.Gosched()
-				}
+			c12Quiesce() // a run loop that is still alive would be blocked in its select by now
+			select {
+			case syncT.c <- time.Time{}:
+				return true, ""
+			default:
+				return false, "undelivered"
 			}
-			return false, "undelivered"
 		}
 		pendingBefore := 0
 		step := func(op []string) string {
@@ -796,10 +819,9 @@ func TestVerifC12(t *testing.T) {
 			case "stop":
 				call(func() error { tw.Stop(); return nil }) // a second Stop panics: recorded by verifh as PANIC
 				stopped = true
-				if !verifh.SettleGoroutines(base-1, 2*time.Second) {
+				if !c12Quiesce() || c12RunLoops() != 0 {
 					return "stopped LOOP-ALIVE"
 				}
-				base--
 				return fmt.Sprintf("stopped %d", stops())
 			default:
 				return "bad-op"
@@ -813,7 +835,9 @@ func TestVerifC12(t *testing.T) {
 			// callbacks may call back into the wheel and those calls may run further callbacks: wait for the loop and
 			// join the callback goroutines until nothing new has happened
 			for round, last := 0, -1; round < 8; round++ {
-				waitLoop()
+				if op[0] == "drain" {
+					waitLoop() // Drain returns when the loop HAS the request: is the loop back in its select?
+				}
 				if hung {
 					if op[0] == "drain" {
 						// stuck watchdog: the run loop accepted Drain and no longer accepts anything
@@ -823,14 +847,9 @@ func TestVerifC12(t *testing.T) {
 					}
 					return "TIMEOUT-loop"
 				}
-				if !verifh.SettleGoroutines(base, 5*time.Second) {
-					return "TIMEOUT-goroutines"
-				}
-				n := sink.count()
-				if n == last || (round == 0 && n == 0) {
-					break
-				}
-				last = n
+				// waitLoop returned with every goroutine blocked: the callbacks and whatever they called are done
+				_, _ = round, last
+				break
 			}
 			return sink.collect(&base)
 		}
@@ -841,7 +860,8 @@ func TestVerifC12(t *testing.T) {
 			if !hung {
 				close(worker.req)
 			}
-			verifh.SettleGoroutines(before, 2*time.Second)
+			c12Quiesce()
+			_ = before
 		}
 	})
 }
@@ -863,7 +883,8 @@ func c12CtorStep(op []string) string {
 		return "err"
 	}
 	tw.Stop()
-	verifh.SettleGoroutines(before, 2*time.Second)
+	c12Quiesce()
+	_ = before
 	return "ok"
 }
 
@@ -972,21 +993,7 @@ func TestVerifC12Cache(t *testing.T) {
 				hung = true
 				return "TIMEOUT-call"
 			}
-			for round, last := 0, -1; round < 8; round++ {
-				waitLoop()
-				if hung {
-					return "TIMEOUT-loop"
-				}
-				if !verifh.SettleGoroutines(base, 5*time.Second) {
-					return "TIMEOUT-goroutines"
-				}
-				n := sink.count()
-				if n == last || (round == 0 && n == 0) {
-					break
-				}
-				last = n
-			}
-			out := sink.collect(&base)
+			out := sink.collect(&base) // the call returned with every goroutine blocked: the expiry callbacks are done
 			c.lock.Lock()
 			var keys []int
 			for k := range c.data {
